@@ -1,11 +1,19 @@
 // ad-hoc probe (not used by any check)
 use qrlew::{relation::Relation, sql::{parse, relation::QueryWithRelations}, differential_privacy::DpParameters};
+use qvh::{common::Rng, data::gen_data, exec::{render, RandomMode}};
 fn main() {
     let rels = qvh::s_rules::world();
+    let mut rng = Rng::new(7);
+    let data = gen_data(&mut rng, 30, 3);
+    let db = data.load(RandomMode::Const(0.25));
     for sql in std::env::args().skip(1) {
         let q = parse(&sql).unwrap();
         let r = Relation::try_from(QueryWithRelations::new(&q, &rels)).unwrap();
-        let dp = r.rewrite_with_differential_privacy(&rels, None, qvh::s_rules::privacy_unit(), DpParameters::from_epsilon_delta(1.0, 1e-5)).unwrap();
-        println!("{}\n{}", dp.relation(), dp.dp_event());
+        println!("ORIG   {:?}", db.query(&sql).map(|x| x.1));
+        println!("RENDER {:?}", db.run(&r).map(|x| x.1));
+        match r.rewrite_with_differential_privacy(&rels, None, qvh::s_rules::privacy_unit(), DpParameters::from_epsilon_delta(1.0, 1e-5)) {
+            Ok(dp) => { let res = db.run(dp.relation()); match res { Ok(x) => println!("DP     {:?}", x.1), Err(e) => println!("DP ERR {e}\n{}", &render(dp.relation())[..600.min(render(dp.relation()).len())]) } }
+            Err(e) => println!("DP rewrite err {e}"),
+        }
     }
 }
